@@ -220,6 +220,10 @@ parameter is taken for it) are genuine ambiguities of the layout and now part of
   made `gogen` fail — the kernel extractor now finds it by role. Hoisting `len(salt)` into a local
   in `md5.Key` was already absorbed by the guard translator. A rewrite the translator cannot follow
   still ends in `VIOLATION … no-failing-input-found`, as the brief allows.
+* The thorough sweep reported `des.Check` accepting `"S4k-b:"` for a hash made from `"S4k-b:\\x80"`:
+  DES-crypt keys are the low 7 bits of each byte, so a trailing 0x80 is the same as no byte — the
+  documented truncation rule. The suite's equivalence test for DES (and BSDi, block-wise) was wrong,
+  not the code; it now compares the masked, zero-padded keys.
 * A first `secretSafe` discipline (C19) was found unsound by the proof attempt itself (three gaps);
   it was replaced by `secretSafe'`, whose soundness is proved (`C19Sound`).
 * Harness-side: duplicate operation names in the first-occurrence oracle of the cache suite, a data
